@@ -766,11 +766,20 @@ Proof.
   repeat (destruct p as [p|p|]; try reflexivity). contradiction.
 Qed.
 
+Lemma lines_strip_alt_rt (cur : str) :
+  match cur with 13 :: c' => rev_append c' [] | _ => rev_append cur [] end =
+  match cur with 13 :: c' => rev c' | _ => rev cur end.
+Proof.
+  destruct cur as [|x t]; [reflexivity|].
+  destruct x as [|p]; [symmetry; apply rev_alt|].
+  repeat (destruct p as [p|p|]; try (symmetry; apply rev_alt)).
+Qed.
+
 Lemma lines_aux_line l : forall cur, ~ In 10 l ->
   lines_aux (l ++ [10]) cur = [strip_cr (rev l ++ cur)].
 Proof.
   induction l as [|c l IH]; intros cur H.
-  - reflexivity.
+  - cbn [app rev lines_aux]. rewrite lines_strip_alt_rt. reflexivity.
   - cbn [app]. rewrite lines_aux_cons by (intros ->; apply H; left; reflexivity).
     rewrite IH by (intros Hin; apply H; right; exact Hin).
     cbn [rev]. rewrite <- app_assoc. reflexivity.
